@@ -263,7 +263,8 @@ theorem C01_gen_copy_path :
 `Gen/C01Skel.lean` is regenerated on every run: for each anchored function of `atoms.py` / `copyable.py` its
 normalised skeleton (statement by statement: guards with their comparison operators and constants, exception
 classes, helper calls, assignment targets, default argument values, order of checks and steps; local names
-alpha-renamed, messages and docstrings dropped), and for `bonds.pyx` the code lines of the index-relabelling
+alpha-renamed, messages and docstrings dropped, private helpers found by their caller, behaviour-preserving
+normal form: guard clauses, `not` pushed inwards, constants on the right, `.items()` loops as key loops), and for `bonds.pyx` the code lines of the index-relabelling
 functions.  `Proofs/C01Expected.lean` is what the hand-written model encodes.  A changed operator, constant,
 default, exception class, helper or order breaks the obligation of its family for every input at once. -/
 
@@ -376,13 +377,13 @@ theorem C01_gen_error_classes :
        ("AtomArray.__getitem__", [Err.indexError.toString]),                               -- `getitem2` on an array
        ("AtomArrayStack.__getitem__", [Err.indexError.toString, Err.indexError.toString]), -- tuple length, atom bounds
        ("AtomArrayStack.__setitem__",                                                      -- `setModel`
-         [Err.valueError.toString, Err.valueError.toString, Err.valueError.toString, Err.typeError.toString]),
+         [Err.valueError.toString, Err.valueError.toString, Err.typeError.toString, Err.valueError.toString]),
        ("AtomArrayStack.__delitem__", [Err.typeError.toString]),
        ("array", [Err.valueError.toString]),                                               -- `arrayOf`
        ("stack", [Err.valueError.toString]),                                               -- `stackArrays`
        ("concatenate", [Err.typeError.toString, Err.indexError.toString]),                 -- `concatCheck`
-       ("repeat", [Err.valueError.toString, Err.valueError.toString, Err.valueError.toString, Err.valueError.toString,
-                   Err.typeError.toString]),
+       ("repeat", [Err.valueError.toString, Err.valueError.toString, Err.valueError.toString, Err.typeError.toString,
+                   Err.valueError.toString]),                                              -- (guard-clause normal form)
        ("from_template", [Err.valueError.toString]),                                       -- `fromTemplate`
        ("bonds.pyx:_invert_index", [Err.notImplemented.toString]),                         -- `bondsIndexErr`
        ("bonds.pyx:_to_positive_index_array", [Err.indexError.toString, Err.indexError.toString])] := by
